@@ -435,6 +435,17 @@ def run(chk):
                           sample={"regime": c["regime"], "phase": c["phase"], "fabric": c["fabric"], "n_grains": c["ng"], "kinds": list(c["kinds"])})
             if fails:
                 mon.append((c, fails))
+        # velocity gradient / orientations handed over in integer or binary32 dtypes (values exactly representable): the rotated
+        # partner is float64, so a rate that depends on the DTYPE of an argument is not frame indifferent (seeded change C04f)
+        drng = np.random.default_rng([chk.seed, 0xD7F])
+        for c in c03.dtype_cases(chk, chk.tier):
+            fails = rate_oracle(core, c, drng)
+            chk.note_case(("rate-dtype", c["present"][1], c["regime"], c["phase"], c["fabric"], c["O"].tobytes(), c["L"].tobytes()),
+                          nontrivial=True)
+            if degenerate(c):
+                chk.cov["degenerate_excluded"] = chk.cov.get("degenerate_excluded", 0) + 1
+            if fails:
+                mon.append((c, fails))
         # boundary stream: exactly zero strain rate
         zcases = zero_strain_rate_cases(rng, chk.tier)
         zh = chk.cov.setdefault("zero_strain_rate_rate_cases", {})
